@@ -6,6 +6,12 @@ ALL = ["C%02d" % i for i in range(1, 21)]
 
 # id -> (engine, technique, level text, level note, design ref)
 CHECKS = {
+ "C01": ("pbt", "seeded proptest over generated document trees x traversal-target grammar, oracle = planted-secret non-disclosure + error status for climbing targets",
+         "Exploration: every run materialises 32 (quick) / 640 (thorough) generated trees with uniquely marked secrets at every ancestor level, beside owner-linked outside directories and in look-alike sibling directories, and sends 1,500 / 4,000 grammar-generated targets per tree (half of them climb exactly to a level and name a secret there) with and without Range headers through both request entry points of the real code. A negative ('no target discloses') cannot be proven by sampling; the grammar covers the spellings the statement names.",
+         "Secrets consist of marker text only, so any 12-byte window of a secret in a response is a disclosure; Range slices of a secret shorter than 12 bytes would escape; in-process route with cwd = served root.", "DESIGN.md §4 C01"),
+ "C04": ("pbt", "grammar-based request mutation (seeded proptest, supervised worker processes) against a strict response parser and a request-line reference model",
+         "Exploration: 40k (quick) / 3M (thorough) generated requests - coherent requests to every endpoint and free hostile combinations, 0-4 byte-level mutations, thousands of header lines, oversize, three buffer sizes, three application kinds - run through the real Server::process on a mock transport; panics are caught, aborts (stack overflow) are attributed to the in-flight case by the supervisor. Each response must be exactly one M-HTTP response with an error status where the pre-parser or the handler demands it.",
+         "In-process: survival is seen as absence of panic/abort; the harness's pre-parser only demands a status for the classes the statement names. Process-level survival over the network is checked by C06.", "DESIGN.md §4 C04"),
  "C14": ("pbt", "seeded proptest round-trip (parse . generate = id) + accept/reject reference model of the request line",
          "Exploration: 50k (quick) / 2M (thorough) generated well-formed requests are serialised by the library and parsed back, compared field by field; 40k / 2M raw messages (request-line near misses, arbitrary UTF-8 heads, junk Content-Length) are judged by the harness's accept/reject model. Failures shrink to a minimal request. Sampling, not proof: absence of a counterexample in the grammar explored.",
          "Trusts Request::generate as the serialiser under test and the harness's request-line model; classes the statement leaves open (lower case, extra spaces, empty target pinned by the unit tests, later non-UTF-8 header lines) assert totality only.", "DESIGN.md §4 C14"),
